@@ -413,7 +413,13 @@ class C02Executor(Executor):
                                      and self._appended_in(body, st, r)):
                 self.to_slist(st, VRef(r))
                 sl.append((r, st.heap[r]))
+        # an instance all of whose modelled fields are already unknown has nothing left to havoc (keeps its class, so
+        # that method calls on it still resolve to their contracts)
+        opaque = [(r, st.heap[r]) for r in sorted(refs) if r in st.heap and st.heap[r].kind == "obj"
+                  and all(isinstance(x, VUnk) for x in st.heap[r].data.values())]
         super().havoc_loop_state(st, body, spec, extra_names)
+        for r, o in opaque:
+            st.heap[r] = o
         for r, o in sl:
             st.heap[r] = o
             self.slist_havoc(st, r)
